@@ -1327,32 +1327,32 @@ def mean(x, dim=None):
     return x.mean(dim)
 
 
-def exp(x):
-    return x.exp()
+def exp(x, out=None):
+    return _write_out(x.exp(), out)
 
 
-def log(x):
-    return x.log()
+def log(x, out=None):
+    return _write_out(x.log(), out)
 
 
-def cos(x):
-    return x.cos()
+def cos(x, out=None):
+    return _write_out(x.cos(), out)
 
 
-def sin(x):
-    return x.sin()
+def sin(x, out=None):
+    return _write_out(x.sin(), out)
 
 
-def sqrt(x):
-    return x.sqrt()
+def sqrt(x, out=None):
+    return _write_out(x.sqrt(), out)
 
 
-def abs(x):  # noqa: A001
-    return x.abs()
+def abs(x, out=None):  # noqa: A001
+    return _write_out(x.abs(), out)
 
 
-def sigmoid(x):
-    return x.sigmoid()
+def sigmoid(x, out=None):
+    return _write_out(x.sigmoid(), out)
 
 
 def clamp(x, min=None, max=None):
